@@ -52,6 +52,14 @@ TSSet   == /\ Line.e = "s_settings"
 TSWU    == Line.e \in {"s_wu", "s_other"} /\ UNCHANGED vars
 TSGoAway == Line.e = "s_goaway" /\ G_SGoAway(Line.code) /\ U_Dead /\ Mech
 
+(* White box, exact: with a reading peer the serve loop's curHandlers is the number of application  *)
+(* handlers the driver has seen start and not told to return (a handler that was told to return    *)
+(* has nothing left to wait for: everything it wrote was flushed before), plus the server's own     *)
+(* 400 handlers whose response is held back by flow control.  A slot that is leaked or given back   *)
+(* twice shows here before it shows as starvation or as too many handlers.                          *)
+Held400 == {s \in Streams : kind[s] = "connspec" /\ hst[s] = "done" /\ ~sentES[s] /\ ~recvRST[s] /\ ~sentRST[s]}
+SlotsExact == (~dead /\ ~paused) => Line.cur = Cardinality(Running) + Cardinality(Held400)
+
 (* Known deviation of the real server (finding: merged SETTINGS acks).  processSettings only     *)
 (* raises a flag (needToSendSettingsAck); SETTINGS frames that arrive while a frame write is     *)
 (* blocked are acknowledged by ONE ack.  The step is specific: k >= 2 SETTINGS frames received   *)
@@ -60,14 +68,14 @@ DevGuard ==
     /\ Line.e = "q" /\ Line.state = "ok" /\ ~dead /\ ~paused
     /\ ~QuiesceOK(Line.cur, Line.ctl, AsSet(Line.live), maxq, setOwed)
     /\ setOwed > 0 /\ setPaused >= 2 /\ setOwed < setPaused
-    /\ QuiesceOK(Line.cur, Line.ctl, AsSet(Line.live), maxq, 0)
+    /\ QuiesceOK(Line.cur, Line.ctl, AsSet(Line.live), maxq, 0) /\ SlotsExact
 TQDev ==
     /\ DevGuard
     /\ setOwed' = 0 /\ setPaused' = 0
     /\ UNCHANGED <<adv, cs, kind, recvRST, sentES, sentRST, hst, rejOwed, pings, paused, dead>>
     /\ Mech
 
-TQ == /\ Line.e = "q" /\ Line.state = "ok"
+TQ == /\ Line.e = "q" /\ Line.state = "ok" /\ SlotsExact
       /\ QuiesceOK(Line.cur, Line.ctl, AsSet(Line.live), maxq, setOwed) /\ UNCHANGED vars
 
 (* once the connection is finished (GOAWAY with an error) nothing more is judged, but a panic, *)
